@@ -9,6 +9,8 @@ import (
 	"math/rand"
 	"time"
 
+	"github.com/aperturerobotics/util/promise"
+
 	"verifharness/comp"
 )
 
@@ -44,6 +46,32 @@ func (w *world) probeAccess(cons []*consumer) {
 			}
 		}
 		c.mu.Unlock()
+	}
+}
+
+// probePromise logs the content of the promise container of every AddRefPromise step (non-blocking).
+func (w *world) probePromise(cons []*consumer) {
+	for _, c := range cons {
+		c.mu.Lock()
+		pc := c.prom
+		c.mu.Unlock()
+		if pc == nil {
+			continue
+		}
+		p, _ := pc.GetPromise()
+		if p == nil {
+			w.log.Add("probe promise %d 0 0 0", c.id)
+			continue
+		}
+		// AddRefPromise only ever stores results, so the promise is resolved: Await returns at once
+		ctx, cancel := context.WithTimeout(context.Background(), watchdog)
+		v, err := p.Await(ctx)
+		timedOut := ctx.Err() != nil
+		cancel()
+		if timedOut {
+			w.tags.Add("promise-unresolved")
+		}
+		w.log.Add("probe promise %d 1 %d %d", c.id, v, consErrID(err))
 	}
 }
 
@@ -114,6 +142,22 @@ func (w *world) consumerStep(op string, f []string, async bool, refs *[]*refHold
 		c := (*cons)[atoi(f[1])]
 		log.Add("env cancelcall %d", c.id)
 		c.cancel()
+	case "addrefpromise":
+		// the call stays pending in the history: its reference is held until the end of the scenario and
+		// its promise keeps following the value
+		c := &consumer{cancel: func() {}}
+		c.id = log.Inv("promise")
+		*cons = append(*cons, c)
+		*refs = append(*refs, &refHolder{id: c.id}) // keeps `release i` indices aligned; never releasable
+		id := c.id
+		w.call(async, func() {
+			defer guard(id)
+			p, ref := w.rc.AddRefPromise()
+			c.mu.Lock()
+			c.prom, _ = p.(*promise.PromiseContainer[int])
+			c.pref = ref
+			c.mu.Unlock()
+		})
 	case "wait", "resolve", "rwr":
 		ctx, cancel := context.WithCancel(context.Background())
 		c := &consumer{cancel: cancel}
@@ -174,6 +218,7 @@ func genConsumers(rng *rand.Rand, tier string) []string {
 	nrefs, ncons, nent := 0, 0, 0
 	zeroUsed := false // at most one entry returns the zero value with a nil error: then the value names its entry
 	var accs []int // consumer indices that are Access calls
+	nprom := 0
 	ncb := map[int]int{}
 	if rng.Intn(3) > 0 {
 		out = append(out, "addref rec")
@@ -194,6 +239,12 @@ func genConsumers(rng *rand.Rand, tier string) []string {
 			ncons++
 			nrefs++
 			nent++
+		case r < 23 && nprom == 0 && ncons-len(accs) < 2:
+			out = append(out, "addrefpromise")
+			nprom++
+			ncons++
+			nrefs++
+			nent++
 		case r < 26:
 			out = append(out, "addref "+[]string{"rec", "rec", "quiet", "nil"}[rng.Intn(4)])
 			nrefs++
@@ -208,7 +259,7 @@ func genConsumers(rng *rand.Rand, tier string) []string {
 		case r < 58 && nent > 0:
 			e := 0
 			if rng.Intn(6) == 0 {
-				e = 1 + rng.Intn(3)
+				e = []int{1, 2, 3, 9}[rng.Intn(4)]
 			}
 			val := "v"
 			if e == 0 && !zeroUsed && rng.Intn(5) == 0 {
@@ -282,6 +333,13 @@ func init() {
 			// is held (2nd lock-enter); the reference is still notified, the release goroutine's Release is a no-op
 			// and `released` runs before the call has returned
 			{"config 0 1 1", "gate lock-enter 2", "rwr 1", "settle", "cancelcall 0", "settle", "return 0 v 1 0", "settle", "setctx 2", "settle", "opengate 0", "quiesce", "return 1 v 1 0", "quiesce"},
+			// AddRefPromise as a step of its own (seed C10-c1): the promise is empty again from the invalidation
+			// of the value until the replacement is resolved; it carries errors
+			{"config 0 1 1", "addrefpromise", "quiesce", "return 0 v 1 0", "quiesce", "released 0", "quiesce", "return 1 v 1 0", "quiesce", "setctx 2", "quiesce", "return 2 0 1 2", "quiesce", "clearctx", "quiesce"},
+			{"config 1 1 1", "addref rec", "return 0 v 1 0", "settle", "addrefpromise", "wait", "quiesce", "release 0", "release 2", "released 0", "quiesce", "return 1 v 0 0", "quiesce"},
+			// the resolver's error is context.Canceled itself while every caller context is alive (seed C10-c3):
+			// Wait / Resolve / ResolveWithReleased / Access return it as such
+			{"config 0 1 1", "wait", "resolve", "return 0 0 0 9", "quiesce", "rwr 1", "return 1 v 1 9", "quiesce", "access", "return 2 0 1 9", "quiesce"},
 			// ResolveWithReleased: the user releases first, then the value is invalidated; error result
 			{"config 1 1 1", "rwr 1", "return 0 v 1 0", "settle", "release 0", "quiesce", "released 0", "quiesce", "rwr 0", "return 1 v 1 3", "quiesce", "wait", "cancelcall 2", "quiesce"},
 		},
